@@ -47,6 +47,7 @@ def run_program(ctx, rng):
         o = ctx.call(f, *operands)
         ctx.count("op", name)
         if not o.ok:
+            prog.failed(operands, info)
             empties = any((is_array(v) or is_vector(v)) and not v.blocks for v in operands)
             if empties:
                 ctx.count("refusal", "degenerate-empty-operand")
@@ -158,6 +159,7 @@ def utils_case(ctx, rng):
             o2 = ctx.call(f, *operands)
             ctx.count("op", nm)
             if not o2.ok:
+                prog.failed(operands, info)
                 ctx.count("raises", f"{nm}:{o2.excname}")
                 continue
             if not any(is_array(v) or is_vector(v) for v in (o2.value if isinstance(o2.value, (tuple, list)) else [o2.value])):
